@@ -110,6 +110,8 @@ func (r *Run) evalHelper(op Op) (res string) {
 		return renderSymbol(r.st.ByName(op.S), helperSymbols[op.N%len(helperSymbols)])
 	case "iserr":
 		return renderIsErr(op.N)
+	case "ispublic":
+		return fmt.Sprint(r.st.ByName(op.S).IsPublicSymbol(op.Name))
 	}
 	return "?"
 }
@@ -123,7 +125,7 @@ func (r *Run) helperPrologue() {
 				continue
 			}
 			for _, op := range tx.Ops {
-				if op.K == "parse" && op.N < 0 {
+				if (op.K == "parse" || op.K == "ispublic") && op.N < 0 {
 					continue // first evaluated concurrently, compared with a serial evaluation after the run
 				}
 				k := op.String()
@@ -185,10 +187,28 @@ func (r *Run) helperEpilogue() {
 
 func (g *gen) genHelpers(n int) []Op {
 	var ops []Op
+	if g.r.IntN(4) == 0 {
+		// a client validating the symbols of incoming queries against one child store: name after name
+		for i := 0; i < n+2; i++ {
+			ops = append(ops, Op{K: "ispublic", S: pick(g.r, []string{StPX, StPX, StStaff}), N: -1, Name: pick(g.r, []string{"groups", "mentees", "badges", "kudos", "roles", "nosuch"})})
+		}
+		return ops
+	}
 	for i := 0; i < n; i++ {
 		if g.r.IntN(3) == 0 {
 			lit := func() string { return time.Unix(946684800+int64(g.r.IntN(1<<30)), 0).UTC().Format(time.RFC3339) }
 			ops = append(ops, Op{K: "parse", S: StPeople, N: -1, Name: lit(), Q: lit()})
+			continue
+		}
+		if g.r.IntN(6) == 0 {
+			// is a symbol public? Asked through a child store for names nobody has asked about before (map elements:
+			// there is no end to them), and for ordinary ones
+			name := pick(g.r, []string{"name", "roles", "tags", "nosuch"})
+			n := g.r.IntN(4)
+			if g.r.IntN(2) == 0 {
+				name, n = pick(g.r, []string{"groups", "mentees", "badges", "kudos"}), -1
+			}
+			ops = append(ops, Op{K: "ispublic", S: pick(g.r, []string{StStaff, StPX, StPeople}), N: n, Name: name})
 			continue
 		}
 		switch g.r.IntN(4) {
